@@ -1033,7 +1033,7 @@ class HttpPayloadParser:
                     # As for a complete line, the CR of the line terminator
                     # does not count (a lax chunk-size line keeps it).
                     tail_len = len(self._chunk_tail)
-                    if SEP == b"\r\n" or self._chunk == ChunkState.PARSE_TRAILERS:
+                    if SEP == b"\r\n" or self._chunk != ChunkState.PARSE_CHUNKED_SIZE:
                         tail_len -= self._chunk_tail.endswith(b"\r")
                     if tail_len > max_line_length:
                         raise LineTooLong(
@@ -1118,6 +1118,14 @@ class HttpPayloadParser:
                 # toss the CRLF at the end of the chunk
                 if self._chunk == ChunkState.PARSE_CHUNKED_CHUNK_EOF:
                     if self._lax and chunk.startswith(b"\r"):
+                        if len(chunk) == 1:
+                            # The LF has not arrived yet.  Keep the CR so that the
+                            # next read looks at "CR + new data" exactly as one
+                            # read would (dropping it here made the next read
+                            # skip a second CR).
+                            self._chunk_tail = chunk
+                            self._paused = False  # see the final return
+                            return PayloadState.PAYLOAD_NEEDS_INPUT, b""
                         chunk = chunk[1:]
                     if chunk[: len(SEP)] == SEP:
                         chunk = chunk[len(SEP) :]
